@@ -45,15 +45,19 @@ def tree_hash(repo=None):
 
 
 def _prune_cache(keep):
-    """Keep the cache small: the current tree and the two most recent others."""
+    """Keep the cache small (an entry is ~3 MB): the current tree, the eight most recently USED others, and never an entry
+    used within the last three hours - a check of another tree may be running on it right now."""
+    import time
     try:
         entries = [e for e in os.listdir(CACHE) if os.path.isdir(os.path.join(CACHE, e))]
     except FileNotFoundError:
         return
     entries = [e for e in entries if e != keep]
     entries.sort(key=lambda e: os.path.getmtime(os.path.join(CACHE, e)), reverse=True)
-    for e in entries[3:]:
-        shutil.rmtree(os.path.join(CACHE, e), ignore_errors=True)
+    now = time.time()
+    for e in entries[8:]:
+        if now - os.path.getmtime(os.path.join(CACHE, e)) > 3 * 3600:
+            shutil.rmtree(os.path.join(CACHE, e), ignore_errors=True)
 
 
 def ensure_home(repo=None, verbose=True):
@@ -68,6 +72,10 @@ def ensure_home(repo=None, verbose=True):
     marker = os.path.join(base, 'READY')
     os.makedirs(base, exist_ok=True)
     if os.path.exists(marker):
+        try:
+            os.utime(base, None)          # "last used" for the pruning rule
+        except OSError:
+            pass
         return home
     lock = open(os.path.join(base, 'lock'), 'w')
     fcntl.flock(lock, fcntl.LOCK_EX)
